@@ -20,6 +20,10 @@ def generate(prop, seed, tier):
     cfg = worldgen.gen_cfg(rng, world, registry=registry, retry_p=0.15)
     cfg["max_errors"] = rng.choice([0, 0, 2, None])
     cfg["progress"] = "rec"
+    if rng.random() < 0.12:
+        # a bundled display whose sink is broken: Ctrl-C still comes out as KeyboardInterrupt
+        cfg["progress"] = "bundled-sinkfail"
+        cfg["sink_fails_from"] = rng.choice([1, 1, 2])
     sc = worldgen.gen_sched(rng)
     op = dict(op="run", cfg=cfg)
     if rng.random() < 0.25:
